@@ -212,6 +212,13 @@ func c05Gen(rng *verifsim.RNG, idx int, tier string) *Plan {
 			// the interface can be used at all) fails for a transient reason
 			q.Faults = append(q.Faults, Fault{Seam: "write", Key: "mc", N: []int{1, 1, 2, 3}[rng.Intn(4)], Err: []string{"ENETDOWN", "ENOBUFS", "EINVAL"}[rng.Intn(3)]})
 			q.Class += "+failing-initial-send"
+		} else if rng.Bool(0.15) {
+			// the link state watcher ends while the daemon goes on (its netlink
+			// socket is gone, or the platform has none): every subscription is
+			// closed, which is not a link change - the unsolicited RAs go on as
+			// before, on the same connection
+			q.Actions = append(q.Actions, Action{At: int64(rng.Dur(time.Second, time.Duration(q.Horizon*3/4))) + jitter(rng), Kind: "watchend"})
+			q.Class += "+watcher-ends"
 		}
 		return q
 	}
